@@ -196,7 +196,9 @@ def _c_body(r, kind, alone):
 
 
 # ------------------------------------------------------------------ C18.d document level: every cell of a non-kern spine becomes exactly one token
-ODD_CELLS = (' ', '   ', '\xa0', '\u3000', ' x ', 'la', '-', '0')
+# blank-only / padded cells, and texts that any Unicode 'clean-up' would change: a decomposed accent (not NFC), the ANGSTROM SIGN
+# (NFC maps it to another code point), a full-width letter (NFKC), sharp s and dotted capital I (case mappings change the length)
+ODD_CELLS = (' ', '   ', '\xa0', '\u3000', ' x ', 'la', '-', '0', 'e\u0301', '\u212b', '\uff21', '\xdf\u0130')
 
 
 def ob_d(kind: int, c1: int, c2: int, two: bool) -> bool:
@@ -227,6 +229,12 @@ def _d_body(kind, c1, c2, two):
             if ref is not None and ref.category.name in SHARED:
                 continue
             check(t.encoding == cell and t.category.name == own, f'{header}: cell {cell!r} became {type(t).__name__} {t.encoding!r} {t.category.name}')
+            check(t.export() == cell, f'{header}: cell {cell!r} is exported as {t.export()!r}')
+    out = kp.dumps(doc, spine_types=[header])
+    got = [ln.split('\t') for ln in out.split('\n') if ln != '']
+    for r in (1, 3):
+        if not all(c.strip() in ('', '.', '*') for c in rows[r]):
+            check(rows[r] in got, f'{header}: line {rows[r]} of {text!r} is not in the export {out!r}')
     return True
 
 
@@ -324,7 +332,7 @@ OBLIGATIONS = [
        bounds={'quick': '7 x 14^3 histories', 'thorough': 'same'}),
     Ob(id='C18.d', fn=ob_d, title='documents: every cell of a non-kern spine (blank-only, padded, odd) becomes exactly one verbatim token',
        shard_of=lambda kind, c1, c2, two: kind, shards={'quick': 7, 'thorough': 7}, budget_s={'quick': 120, 'thorough': 600},
-       witnesses=[{'kind': 0, 'c1': 0, 'c2': 5, 'two': False}], min_confirmed=300, enumerated='spine type, two cells from 8 odd texts, one / two columns',
+       witnesses=[{'kind': 0, 'c1': 0, 'c2': 5, 'two': False}], min_confirmed=300, enumerated='spine type, two cells from 12 odd texts (blank-only, padded, non-NFC, full-width, case-sensitive), one / two columns',
        bounds={'quick': '7 x 8 x 8 x 2', 'thorough': 'same'}),
     Ob(id='C18.e', fn=ob_e, title='bounding-box interpretations under every spine type: same page boxes as under **kern, stable over repeated imports',
        budget_s={'quick': 120, 'thorough': 600}, witnesses=[{'kind': 1, 'lead': True}], min_confirmed=10, enumerated='spine type, leading / trailing column',
